@@ -2,9 +2,11 @@ mod ast;
 mod engine;
 mod pgen;
 mod rt;
+mod refint;
 
 mod dev;
 mod common;
+mod c01;
 mod c04;
 mod lockstep;
 mod c02;
@@ -118,6 +120,7 @@ fn main() {
         "dev-idioms" => dev::idioms(&env, &rest),
         "dev-find" => dev::find(&env, &rest),
         "dev-load" => dev::load_file(&env, &rest),
+        "C01" => c01::run(&env),
         "C04" => c04::run(&env),
         "C02" => c02::run(&env),
         "C17" => c17::run(&env),
